@@ -18,6 +18,9 @@
 (*                         is dropped by the scheduler without any listener     *)
 (*                         call: the running counter is not decremented and the *)
 (*                         waiter of its task is never settled                  *)
+(*  "timeout_without_last_look"  a waiter whose deadline passes between the     *)
+(*                         worker's store and its notify reports a timeout      *)
+(*                         without looking for the result once more             *)
 (*  "join_no_recheck"      wait_task_result does not look for the result again  *)
 (*                         after registering, so a completion between W1 and W2 *)
 (*                         is lost until the timeout                            *)
@@ -351,12 +354,24 @@ W3timeout(t) ==
   /\ wpc' = [wpc EXCEPT ![t] = "timeout"]
   /\ UNCHANGED <<pstate, tq, tst, tw, nsusp, tres, cancelTasks, cancelCo, runningTasks, wst, wtask, rq, ctr, spc, cur,
                  stopping, waits, pending, notified, accepted>>
+\* ... or the deadline passes exactly while the worker that has stored this task's result has not notified yet:
+\* the waiter looks once more before it reports a timeout (intended design). Named deviation
+\* "timeout_without_last_look": it trusts the condition variable's verdict and reports the timeout (seeded/C02-2)
+W3deadline(t) ==
+  /\ Go /\ wpc[t] = "W3" /\ pending[t] /\ NoLog
+  /\ spc = "notify" /\ wtask[cur] = t
+  /\ IF Dev("timeout_without_last_look")
+     THEN /\ wpc' = [wpc EXCEPT ![t] = "timeout"]
+          /\ viol' = IF tres[t] \in {"stored", "stop_err"} THEN "timeout_although_stored" ELSE viol
+     ELSE /\ wpc' = [wpc EXCEPT ![t] = "W4"] /\ UNCHANGED viol
+  /\ UNCHANGED <<pstate, tq, tst, tw, nsusp, tres, cancelTasks, cancelCo, runningTasks, wst, wtask, rq, ctr, spc, cur,
+                 stopping, waits, pending, notified, accepted>>
 W4(t) == /\ Go /\ wpc[t] = "W4" /\ NoLog /\ Take(t, "timeout")
          /\ UNCHANGED <<pstate, tq, tst, tw, nsusp, cancelTasks, cancelCo, runningTasks, wst, wtask, rq, ctr, spc, cur,
                         stopping, waits, pending, notified, accepted, viol>>
 
 Next ==
-  \/ \E t \in T : Submit(t) \/ Cancel(t) \/ Abandon(t) \/ WaitStart(t) \/ W1(t) \/ W2(t) \/ W2b(t) \/ W3wake(t) \/ W3timeout(t) \/ W4(t)
+  \/ \E t \in T : Submit(t) \/ Cancel(t) \/ Abandon(t) \/ WaitStart(t) \/ W1(t) \/ W2(t) \/ W2b(t) \/ W3wake(t) \/ W3timeout(t) \/ W3deadline(t) \/ W4(t)
   \/ StopBegin \/ StopEnd(TRUE) \/ StopEnd(FALSE) \/ BadSpawn
   \/ PassBegin \/ PickWorker \/ WorkerPop \/ TaskSuspend \/ TaskDelay \/ TaskFinish \/ Notify
   \/ \E w \in W : TimerFire(w)
